@@ -1,5 +1,5 @@
 #!/usr/bin/env python3
-"""seed_eval.py <PID> <m1|m2> [extra check ids...]
+"""[SEED_ROOT=/tmp/mut2 SEED_TAG=r2] seed_eval.py <PID> <m1|m2> [extra check ids...]
 Confirms a seeded change produced by a sub-agent in its scratch worktree /tmp/mut/<PID>
 (compiles, whole pinned suite passes, demonstration fails with it and passes without), then
 applies it to /repo, runs the checks, reverts /repo, and stores everything under /verif/seeded/."""
@@ -7,7 +7,9 @@ import json, os, re, shutil, subprocess, sys, time
 
 pid, m = sys.argv[1], sys.argv[2]
 extra = sys.argv[3:]
-wt = f"/tmp/mut/{pid}"
+ROOT = os.environ.get("SEED_ROOT", "/tmp/mut")     # scratch worktrees of the sub-agents
+TAG = os.environ.get("SEED_TAG", "")               # e.g. "r2" for the second round
+wt = f"{ROOT}/{pid}"
 out = f"{wt}/OUT"
 env = dict(os.environ, CARGO_TARGET_DIR=f"{wt}/target", CARGO_NET_OFFLINE="true")
 
@@ -72,11 +74,12 @@ if confirmed:
     finally:
         sh("git -C /repo checkout -- .")
 res["checks"] = caught
-d = f"/verif/seeded/{pid}-{m}"
+sid = f"{pid}-{TAG}{m}"
+d = f"/verif/seeded/{sid}"
 os.makedirs(d, exist_ok=True)
 shutil.copy(diff, f"{d}/patch.diff")
 shutil.copy(demo, f"{d}/demo.rs")
-meta = {"property": pid, "id": f"{pid}-{m}", "breaks": meta_in.get("what_it_breaks"), "needs_to_manifest": meta_in.get("needs_to_manifest"),
+meta = {"property": pid, "id": sid, "breaks": meta_in.get("what_it_breaks"), "needs_to_manifest": meta_in.get("needs_to_manifest"),
         "files_changed": meta_in.get("files_changed"), "demo_placement": rel,
         "demo_cmd": f"cargo test -p {crate} --offline --test {testname}",
         "confirmed_by_me": {k: res[k] for k in ("applies", "suite_passes_with_change", "suite_with_change", "demo_fails_with_change", "demo_passes_without", "confirmed")},
